@@ -2,6 +2,7 @@ package main
 
 import (
 	"math"
+	"math/big"
 	"sort"
 	"strconv"
 
@@ -11,7 +12,7 @@ import (
 // Expect: on the un-mutated reply the accessor must return exactly this value (C16 oracle).
 type Expect struct {
 	Acc string `json:"acc"`
-	Val string `json:"val"`
+	Val string `json:"val"` // a canonical value, or "ERR:<kind>" when an error of that kind is expected
 }
 
 type Shaped struct {
@@ -167,8 +168,126 @@ func sortedKeys[T any](m map[string]T) []string {
 	return ks
 }
 
+// ---- string-encoded integers in non-canonical spellings ----
+// decimal spellings: the expected value is the decimal reading (no octal / hex / binary prefixes, no separators)
+var decimalSpellings = []string{"0", "7", "007", "0100", "010", "09", "00", "+5", "+0", "-0", "-0755", "-007", "+0012", "0000000000000000000042",
+	"9223372036854775807", "-9223372036854775808", "0009223372036854775807", "-0009223372036854775808", "+9223372036854775807",
+	"9223372036854775808", "-9223372036854775809", "18446744073709551615", "018446744073709551615", "18446744073709551616", "99999999999999999999999"}
+
+// not decimal integers: a parse error is expected
+var nonDecimal = []string{"0x1F", "0X1f", "0b11", "0B1", "0o7", "0O17", "1_000", "0_1", " 1", "1 ", "1e3", "1.0", "--1", "+-1", "+", "-", "0x", "١٢", "1\x00", "abc", "0x-1", "1_", "_1"}
+
+// decimalReading reads s as [+-]?[0-9]+ in base ten; ok=false when s is not of that form.
+func decimalReading(s string, allowSign bool) (*big.Int, bool) {
+	t := s
+	if allowSign && len(t) > 0 && (t[0] == '+' || t[0] == '-') {
+		t = t[1:]
+	}
+	if t == "" {
+		return nil, false
+	}
+	for i := 0; i < len(t); i++ {
+		if t[i] < '0' || t[i] > '9' {
+			return nil, false
+		}
+	}
+	v := new(big.Int)
+	for i := 0; i < len(t); i++ {
+		v.Mul(v, big.NewInt(10))
+		v.Add(v, big.NewInt(int64(t[i]-'0')))
+	}
+	if s[0] == '-' && allowSign {
+		v.Neg(v)
+	}
+	return v, true
+}
+
+// expInt: what an int64-reading accessor must return for the string s
+func expInt(acc, s string, wrap func(string) string) Expect {
+	if v, ok := decimalReading(s, true); ok && v.IsInt64() {
+		return Expect{Acc: acc, Val: wrap(vInt(v.Int64()))}
+	}
+	return Expect{Acc: acc, Val: "ERR:ENum"}
+}
+
+func expUint(acc, s string) Expect {
+	if v, ok := decimalReading(s, false); ok && v.IsUint64() {
+		return Expect{Acc: acc, Val: vUint(v.Uint64())}
+	}
+	return Expect{Acc: acc, Val: "ERR:ENum"}
+}
+
+func intSpelling(r *gen.Rand) string {
+	if r.Chance(2, 5) {
+		return gen.Pick(r, nonDecimal)
+	}
+	if r.Chance(1, 4) { // zero padded random number
+		return gen.Pick(r, []string{"0", "00", "-0", "+00", ""}) + strconv.Itoa(r.Range(0, 99999))
+	}
+	return gen.Pick(r, decimalSpellings)
+}
+
+// genIntSpelling: one spelling through AsInt64 / AsUint64, or several through AsIntSlice / AsIntMap (array and map shape).
+// An empty string element of a slice / map is documented to read as zero (it is not a string-encoded integer).
+func genIntSpelling(r *gen.Rand) Shaped {
+	switch r.Intn(4) {
+	case 0:
+		s := intSpelling(r)
+		t := gen.Pick(r, []byte{'$', '+'})
+		id := func(x string) string { return x }
+		return Shaped{"int-spelling:scalar", nStr(t, s), []Expect{expInt("AsInt64", s, id), expUint("AsUint64", s)}}
+	case 1:
+		n := r.Range(1, 4)
+		var ns []Node
+		vals := make([]string, 0, n)
+		bad := false
+		for i := 0; i < n; i++ {
+			s := intSpelling(r)
+			if s == "" {
+				s = "0"
+			}
+			ns = append(ns, blob(s))
+			e := expInt("", s, func(x string) string { return x })
+			if e.Val == "ERR:ENum" {
+				bad = true
+			}
+			vals = append(vals, e.Val)
+		}
+		if bad {
+			return Shaped{"int-spelling:slice", arr(ns...), []Expect{{Acc: "AsIntSlice", Val: "ERR:ENum"}}}
+		}
+		return Shaped{"int-spelling:slice", arr(ns...), []Expect{{Acc: "AsIntSlice", Val: vList(vals)}}}
+	default:
+		n := r.Range(1, 3)
+		var ns []Node
+		m := map[string]string{}
+		bad := false
+		for i := 0; i < n; i++ {
+			s := intSpelling(r)
+			if s == "" {
+				s = "0"
+			}
+			k := "k" + strconv.Itoa(i)
+			ns = append(ns, blob(k), blob(s))
+			e := expInt("", s, func(x string) string { return x })
+			if e.Val == "ERR:ENum" {
+				bad = true
+			}
+			m[k] = e.Val
+		}
+		t := gen.Pick(r, []byte{'*', '%', '~'})
+		if bad {
+			return Shaped{"int-spelling:map", nArr(t, ns...), []Expect{{Acc: "AsIntMap", Val: "ERR:ENum"}}}
+		}
+		return Shaped{"int-spelling:map", nArr(t, ns...), []Expect{{Acc: "AsIntMap", Val: vMapOf(m, func(x string) string { return x })}}}
+	}
+}
+
 // genShaped produces a well-shaped reply of some helper, in the RESP2 or RESP3 shape, with the data it encodes.
 func genShaped(r *gen.Rand) Shaped {
+	if r.Chance(1, 8) {
+		return genIntSpelling(r)
+	}
 	resp3 := r.Bool()
 	ver := "resp2"
 	if resp3 {
